@@ -55,6 +55,7 @@ def canon(ops, out, ordered=False):
     differences in id allocation and in the order of copies inside one burst do not count as a mismatch."""
     cmap = {}
     labels = {}       # cid -> {raw id -> label}
+    labtags = {}      # cid -> {raw id -> payload tag of the message the label was given to}
     counter = {}
     res = []
     for op, line in zip(ops, out):
@@ -70,7 +71,7 @@ def canon(ops, out, ordered=False):
             # a fresh session restarts the numbering
             for x in h:
                 if x.startswith("connack(sp=0,code=0"):
-                    lab.clear(); counter[cid] = 0
+                    lab.clear(); counter[cid] = 0; labtags.pop(cid, None)
             keep_order = ordered or (f and f[0] == "conn" and f[1] == name)
             masked = []
             for x in p:
@@ -95,9 +96,18 @@ def canon(ops, out, ordered=False):
             for mk, x, rid, q in masked:
                 if q > 0 or mk.startswith("pubrel"):
                     fresh = mk.startswith("publish") and ",d=0," in mk     # a first transmission always is a new message
+                    tg = re.search(r",p=([^,]*),", x)
+                    tg = tg.group(1) if tg and mk.startswith("publish") else None
+                    ltag = labtags.setdefault(cid, {})
+                    # a retransmission whose FIRST transmission was not seen (it went to a connection of a `race` op, which the
+                    # harness does not keep): the raw id may have labelled another message before — it is a new message here
+                    if tg is not None and rid in lab and ltag.get(rid) not in (None, tg):
+                        fresh = True
                     if fresh or rid not in lab:
                         counter[cid] = counter.get(cid, 0) + 1
                         lab[rid] = f"#{counter[cid]}"
+                    if tg is not None:
+                        ltag[rid] = tg
                     x = re.sub(r",id=\d+", ",id=" + lab[rid], x) if mk.startswith("publish") else f"pubrel({lab[rid]})"
                 outp.append(x)
             outh = []
